@@ -340,3 +340,43 @@ def check_dropped_flow_senders(facts, rep, crate, rid):
                 else:
                     rep.info("%s: conditional report of `%s` on the dropped-flows queue in %s (not decided)" % (rid, fmt(v)[:60], b.path))
     rep.floor(rid, "reports on the dropped-flows queue", k, 2)
+
+
+def check_option_setters(facts, rep, crate, rid, fields, adt="penguin_mux::config::Options"):
+    """The builder method that configures `field` stores a value derived from its argument into that field (a setter that forgets
+    the store leaves the default in place: the configured window / buffer / keepalive value is silently ignored)."""
+    from an import Tracer, walk, strip
+    from mir import loc_str
+    for f in fields:
+        found = None
+        for b in crate.bodies:
+            if (b.j.get("impl_self") or {}).get("adt") != adt or not b.j.get("pub") or b.argc != 2:
+                continue
+            tr = None
+            stores = []
+            for bi, blk in enumerate(b.blocks):
+                if bi not in b.reach0:
+                    continue
+                for s in blk["stmts"]:
+                    if s["k"] != "Assign":
+                        continue
+                    pr = s["lhs"].get("p") or []
+                    fl = [e for e in pr if isinstance(e, dict) and "f" in e]
+                    if fl and fl[-1]["f"] == f and (fl[-1].get("o") or "").endswith(adt.split("::")[-1]):
+                        tr = tr or Tracer(facts, b)
+                        v = tr.rvalue(s["rv"])
+                        stores.append(any(x.kind == "param" and x[1] == 2 for x in walk(v)))
+            if stores:
+                found = (b, any(stores))
+                if any(stores):
+                    break
+            elif b.name == f and found is None:
+                found = (b, False)
+        key = "setter/%s" % f
+        if found is None:
+            rep.info("%s: no builder method stores into Options.%s (field only set by the constructor); not decided" % (rid, f))
+        elif found[1]:
+            rep.ok(rid, key, "%s (%s)" % (loc_str(found[0].loc), found[0].path), "Options.%s <- argument of %s" % (f, found[0].name), nontrivial=False)
+        else:
+            rep.bad(rid, key, "%s (%s)" % (loc_str(found[0].loc), found[0].path),
+                    "the builder method `%s` does not store its argument into Options.%s: the configured value is silently ignored and the default stays in effect" % (found[0].name, f))
